@@ -8,6 +8,7 @@ import z3
 
 from .. import assume as A
 from .. import spec
+from ..report import FAILED, PROVED, ob
 from ..env import curves, heavy
 from ..symx import con
 from ..symx import harness as H
@@ -29,6 +30,8 @@ def pairs(tier):
         (0, (0, 1, 0), 1, (1, 0, 0)),
         # same degree, same distinct knots, different multiplicities (one operand is the other with a knot inserted again)
         (2, (0, 1, 0), 2, (0, 2, 0)), (1, (2, 0, 0), 1, (1, 0, 0)), (3, (0, 2, 0), 3, (0, 3, 0)),
+        # same degree, same distinct knots, same NUMBER of control points: the multiplicities are traded between two interior knots
+        (2, (2, 1, 0), 2, (1, 2, 0)), (1, (2, 1, 0), 1, (1, 2, 0)),       # (degree 3: concrete histories in task_concrete)
     ]
     if tier != "quick":
         out += [(3, (1, 0, 0), 3, (0, 1, 0)), (2, (1, 1, 0), 2, (0, 1, 1)), (3, (0, 2, 0), 2, (0, 1, 0)), (1, (1, 1, 1), 1, (0, 1, 0)),
@@ -171,6 +174,88 @@ def task_misc(variant):
 task_misc.contract_fn = "curves.BaseCurve.__eq__"
 
 
+# --------------------------------------------------------------------------------------
+# engine B: verdicts do not depend on earlier comparisons in the process; vector-valued (numpy) control points
+# --------------------------------------------------------------------------------------
+def _refined(U, p, P, Wv, q):
+    T = spec.refine_matrix(U, p, Wv, q)
+    return [sum((T[i][j] * P[j] for j in range(len(P))), 0 * P[0]) for i in range(len(T))]
+
+
+def task_concrete():
+    fn = "curves.BaseCurve.__eq__"
+    out = []
+    # (1) histories: A and B live on vectors with the same degree / distinct knots / npts and traded multiplicities; D, E are their refinements on the common
+    #     refinement W.  Every order of the comparisons gives: A == D, B == E, A != E, B != D (generic points) - each order on its own translate
+    import itertools
+    p = 3
+    ks = [F(-2), F(-1, 2), F(3), F(5)]
+    pats = [(2, 1), (1, 2)]
+    checks = [("A==D", 0, 0, True), ("B==E", 1, 1, True), ("B==D", 1, 0, False), ("A==E", 0, 1, False), ("D==A", 0, 0, True), ("E==A", 1, 0, False)]
+    bad, cases = [], 0
+    for order in list(itertools.permutations(range(4)))[:12]:
+        sh = 13 * cases
+        vecs = []
+        for m in pats:
+            U = [ks[0] + sh] * (p + 1)
+            for x, mm in zip(ks[1:-1], m):
+                U += [x + sh] * mm
+            vecs.append(U + [ks[-1] + sh] * (p + 1))
+        Wv, q = union_vector(vecs[0], p, vecs[1], p)
+        pts = [[F((-1) ** i * (i + 2), i + 1) for i in range(len(vecs[0]) - p - 1)], [F(i * i - 3, 2) for i in range(len(vecs[1]) - p - 1)]]
+        crv = [curves.Curve(list(vecs[k]), list(pts[k])) for k in (0, 1)]
+        ref = [curves.Curve(list(Wv), _refined(vecs[k], p, pts[k], Wv, q)) for k in (0, 1)]
+        for idx in order:
+            label, a, b, want = checks[idx]
+            left, right = (ref[a], crv[b]) if label[0] in "DE" else (crv[a], ref[b])
+            if label in ("D==A",):
+                left, right = ref[0], crv[0]
+            if label in ("E==A",):
+                left, right = ref[1], crv[0]
+            try:
+                got = bool(left == right)
+            except Exception as e:
+                got = type(e).__name__
+            if got != want:
+                bad.append(("order %s" % [checks[i][0] for i in order], "%s gave %s, expected %s" % (label, got, want)))
+                break
+        cases += 1
+    out.append(ob("%s:history-independent[traded-multiplicities,p=3]" % fn, fn, FAILED if bad else PROVED, "B", "concrete", 0.0,
+                  ("%d of %d orders give a wrong verdict; first: %s: %s" % (len(bad), cases, bad[0][0], bad[0][1])) if bad else
+                  "%d orders of four comparisons (a curve against refinements of itself and of a curve with traded multiplicities): verdicts as for fresh histories" % cases,
+                  dict(kind="c13.concrete", which="history") if bad else None))
+    # (2) vector-valued control points held as numpy arrays: a copy with ONE coordinate of one point lowered / raised is unequal in both operand orders,
+    #     in the same and in a refined representation
+    U = [F(1)] * 5 + [F(2), F(7, 2), F(4)] + [F(6)] * 5
+    pq = 4
+    n = len(U) - pq - 1
+    P = [np.array([F(i + 1), F((-1) ** i * i, 2), F(i * i, 3)], dtype=object) for i in range(n)]
+    Wv = sorted(U + [F(3), F(5)])
+    bad2 = []
+    for delta in (F(-1, 100), F(1, 100)):
+        for coord in (0, 2):
+            Q = [np.array(x, dtype=object) for x in P]
+            Q[n // 2][coord] += delta
+            A_, B_ = curves.Curve(list(U), P), curves.Curve(list(U), Q)
+            Br = curves.Curve(list(Wv), _refined(U, pq, Q, Wv, pq))
+            Ar = curves.Curve(list(Wv), _refined(U, pq, P, Wv, pq))
+            for label, f, want in (("A==B", lambda: A_ == B_, False), ("B==A", lambda: B_ == A_, False), ("B!=A", lambda: B_ != A_, True), ("Br==A", lambda: Br == A_, False),
+                                   ("A==Br", lambda: A_ == Br, False), ("A==Ar", lambda: A_ == Ar, True), ("Ar==A", lambda: Ar == A_, True)):
+                try:
+                    got = bool(f())
+                except Exception as e:
+                    got = type(e).__name__
+                if got != want:
+                    bad2.append("delta=%s coord=%d: %s gave %s, expected %s" % (delta, coord, label, got, want))
+    out.append(ob("%s:vector-points-asymmetric-perturbation[p=4]" % fn, fn, FAILED if bad2 else PROVED, "B", "concrete", 0.0,
+                  ("%d verdicts wrong; first: %s" % (len(bad2), bad2[0])) if bad2 else "28 verdicts on 3-D numpy control points (one coordinate moved by +-1e-2): both operand orders agree with the functions",
+                  dict(kind="c13.concrete", which="vector") if bad2 else None))
+    return out + [{"_stats": dict(cases=cases + 28)}]
+
+
+task_concrete.contract_fn = "curves.BaseCurve.__eq__"
+
+
 def tasks(tier, seed):
     ts = []
     for pr in pairs(tier):
@@ -178,11 +263,15 @@ def tasks(tier, seed):
             ts.append((task_eq, (pr, variant)))
     for variant in (0, 1):
         ts.append((task_misc, (variant,)))
+    ts.append((task_concrete, ()))
     return ts
 
 
 def replay(o):
     w = o["witness"]
+    if w.get("kind") == "c13.concrete":
+        r = [x for x in task_concrete() if "id" in x and (("history" in x["id"]) == (w["which"] == "history"))][0]
+        return r["status"] == FAILED, "verdicts of == / != agree with the functions in every order", r["detail"]
     sc = w["scenario"]
     if sc in ("misc", "rational"):
         a, mids, b = GRID[w["variant"]]
